@@ -90,6 +90,7 @@ type ReqSpec struct {
 	After       []string        `json:"after,omitempty"`
 	Recipients  []string        `json:"recipients,omitempty"` // txsim
 	AfterCrash  bool            `json:"after_crash,omitempty"` // starts only after the simulated crash (e.g. a peer's redelivery)
+	CtxDone     string          `json:"ctx_done,omitempty"`    // "canceled" | "deadline": the request's context is already done when the request starts
 }
 
 func (r *RunSpec) Clone() *RunSpec {
